@@ -34,12 +34,15 @@ def replay(case):
     H = np.array(case["H"], dtype=float) / S
     frames = [np.array(f, dtype=float) / S for f in case["frames"]]
     nb = case["nbins"]
-    detail = {k: case[k] for k in ("id", "H", "ppp", "S", "types", "frames", "wn", "sharp")}
+    detail = {k: case[k] for k in ("id", "H", "ppp", "S", "types", "frames", "wn", "sharp", "Hs", "tys")}
     if case["nbins_on_integer"] and not case["dyadic_scale"]:
         return ("tie", "nbins", None, False)
     tmp = tempfile.mkdtemp(prefix="verif_c03_")
     try:
-        snaps = common.make_snapshots(frames, case["types"], H)
+        from PyMatterSim.reader.reader_utils import Snapshots
+        # per-frame cell (sheared at constant edge lengths) and per-frame species labels as the spec gives them
+        ss = [common.make_snapshot(f, case["tys"][i], np.array(case["Hs"][i], dtype=float) / S, i) for i, f in enumerate(frames)]
+        snaps = Snapshots(nsnapshots=len(ss), snapshots=ss)
         before = [(s.positions.copy(), s.particle_type.copy()) for s in snaps.snapshots]
         csv = os.path.join(tmp, "gr.csv")
         try:
@@ -113,7 +116,24 @@ def gen_records(rng, n):
         nf = rng.randint(1, 3)
         frames = [[[rng.randint(-(H[k][k] // 4), H[k][k] + H[k][k] // 4) for k in range(d)] for _ in range(N)] for _ in range(nf)]
         ppp = [rng.randint(0, 1) for _ in range(d)] if rng.random() < 0.5 else [1] * d
-        recs.append({"id": len(recs) + 1, "H": H, "ppp": ppp, "S": S, "types": types, "frames": frames, "wn": wn, "sharp": 0})
+        rec = {"id": len(recs) + 1, "H": H, "ppp": ppp, "S": S, "types": types, "frames": frames, "wn": wn, "sharp": 0}
+        if nf > 1 and rng.random() < 0.4:       # sheared between frames: tilts change, edge lengths do not
+            Hs = [H]
+            for _ in range(nf - 1):
+                G = [row[:] for row in H]
+                for i in range(d):
+                    for j in range(i):
+                        G[i][j] = rng.randint(-(H[j][j] // 2), H[j][j] // 2)
+                Hs.append(G)
+            rec["Hs"] = Hs
+        if nf > 1 and rng.random() < 0.3:       # species labels move between particles, composition fixed
+            tys = [types]
+            for _ in range(nf - 1):
+                t = types[:]
+                rng.shuffle(t)
+                tys.append(t)
+            rec["tys"] = tys
+        recs.append(rec)
     return recs
 
 
